@@ -44,6 +44,14 @@ class T(GhostVal):
     def pv_unop(self, op):
         return T("un:" + op, self)
 
+    def pv_getattr(self, name):
+        # boolean expressions offer .cond(a, b) and .then(x)
+        if name == "cond":
+            return HostFn(lambda it, a, k: T("cond", self, *a), "cond", raw=True)
+        if name == "then":
+            return HostFn(lambda it, a, k: T("then", self, *a), "then", raw=True)
+        raise OutOfSubset("expression .%s" % name)
+
 
 class Ranks(GhostVal):
     def __init__(self, n):
